@@ -78,7 +78,7 @@ def stmt_to_step(st):
     raise vlib.ToolError("unknown statement " + op)
 
 
-def run_scenarios(prop, name, scenarios, shards=8, timeout=3000):
+def run_scenarios(prop, name, scenarios, shards=8, timeout=3000, trace_module="Trace_LanceTable"):
     binary, build_s = vlib.harness_build("vh_table")
     wd = vlib.workdir(f"{prop}-{name}")
     scn_file = os.path.join(wd, "scenarios.ndjson")
@@ -92,7 +92,7 @@ def run_scenarios(prop, name, scenarios, shards=8, timeout=3000):
         vlib.harness_run(binary, ["--scenarios", scn_file, "--out", tf, "--scratch", f"{scratch}-{k}",
                                   "--shard", k, "--shards", shards], timeout=timeout)
         shutil.rmtree(f"{scratch}-{k}", ignore_errors=True)
-        v = vlib.tlc_trace(f"{prop}-{name}-{k}", "Trace_LanceTable", T.TRACE_CFG, tf, timeout=timeout, xmx="6g")
+        v = vlib.tlc_trace(f"{prop}-{name}-{k}", trace_module, T.TRACE_CFG, tf, timeout=timeout, xmx="6g")
         if not v["reports"] or not v["accepted"]:
             raise vlib.ToolError(f"trace validation did not complete: {v['out']}")
         return tf, v["reports"][-1]
